@@ -15,10 +15,9 @@
 
   Domain.  `WFMsg` is "field values the protocol version carries" for EVERY protocol version of
   `version` (fields from 106 / 209 / 70001 as the protocol documentation and BIP37 prescribe; 10300
-  excluded).  Parsing theorems hold on all of it.  Framing theorems additionally need `serGate`
-  (nVersion ≥ 70001 for `version`): below that the library's `msg_ser` does NOT produce the
-  prescribed payload — `version_lt_70001_payload`, `version_lt_209_unserialisable` state exactly what
-  it does instead (candidate finding, reported to the integrator).
+  excluded, the reference client and the library read it as 300).  All theorems, framing and parsing,
+  hold on all of it.  (For the shipped code the framing theorems were false below 70001: `msg_ser`
+  wrote every field whatever nVersion — finding D20; the model is written for the repaired code.)
 -/
 import BtcVerif.Proofs.Messages
 
@@ -32,16 +31,15 @@ theorem chain_magic_length : ∀ p ∈ BtcVerif.Spec.chainTable, (p.messageStart
 /-! ### framing produces the prescribed bytes -/
 
 /-- `msg_ser` of every type writes the payload the protocol prescribes -/
-theorem payload_eq_spec (m : Msg) (hwf : WFMsg m) (hg : serGate m) : msgSer m = .ok (payload m) :=
-  msgSer_ok m hwf hg
+theorem payload_eq_spec (m : Msg) (hwf : WFMsg m) : msgSer m = .ok (payload m) := msgSer_ok m hwf
 
 /-- `to_bytes` = magic ‖ NUL-padded command ‖ u32 length ‖ checksum ‖ prescribed payload -/
-theorem frame_eq_spec (magic : Bytes) (m : Msg) (hwf : WFMsg m) (hg : serGate m)
+theorem frame_eq_spec (magic : Bytes) (m : Msg) (hwf : WFMsg m)
     (hlen : (payload m).length < 2 ^ 32) :
     toBytes magic m = .ok (frameMsg magic m) := by
   obtain ⟨hc, _⟩ := command_props m
   unfold toBytes
-  rw [msgSer_ok m hwf hg]
+  rw [msgSer_ok m hwf]
   simp only [Res.ok_bind, Model.Msg.frame, frameMsg, Spec.Msg.frame, checksum_eq, command_eq,
     commandField_eq _ hc]
   rw [packU_ok 4 _ (by norm_num; exact hlen)]
@@ -53,18 +51,6 @@ theorem checksum_len : ChecksumLen := checksumLen
 /-- the model's command constants (its transcription of the `command` class attributes) are the
     protocol's command names -/
 theorem command_eq_spec (m : Msg) : Model.Msg.command m = Spec.Msg.command m := command_eq m
-
-/-- `version`, 209 ≤ nVersion < 70001 (the library's own default is 60002): `msg_ser` writes the
-    prescribed payload FOLLOWED BY a relay byte (01) that this protocol version does not carry -/
-theorem version_lt_70001_payload (v : VersionMsg) (hwf : WFMsg (.version v)) (hlo : 209 ≤ v.nVersion)
-    (hhi : v.nVersion < 70001) : msgSer (.version v) = .ok (payload (.version v) ++ [1]) :=
-  serVersion_lt_70001 v hwf hlo hhi
-
-/-- `version`, nVersion < 209: the message that parsing the prescribed payload yields cannot be framed
-    again at all (`None` fields: AttributeError / struct.error) -/
-theorem version_lt_209_unserialisable (v : VersionMsg) (hwf : WFMsg (.version v)) (hhi : v.nVersion < 209) :
-    ∃ e, msgSer (.version v) = .error e :=
-  serVersion_lt_209 v hwf hhi
 
 /-! ### parsing inverts framing -/
 
@@ -94,12 +80,12 @@ theorem reframe_identical (magic : Bytes) (m : Msg) : toBytes magic (norm m) = t
 
 /-- frame → parse → frame reproduces the frame -/
 theorem parse_reframe (magic : Bytes) (hm : magic.length = 4) (m : Msg)
-    (hwf : WFMsg m) (hg : serGate m) (hlen : (payload m).length ≤ Spec.Wire.maxSize) (rest : Bytes) :
+    (hwf : WFMsg m) (hlen : (payload m).length ≤ Spec.Wire.maxSize) (rest : Bytes) :
     ∃ m', streamDeserialize magic (frameMsg magic m ++ rest) = (.ok (some m'), rest) ∧
       toBytes magic m' = .ok (frameMsg magic m) := by
   refine ⟨norm m, parse_frame magic hm m hwf hlen rest, ?_⟩
   rw [reframe_identical]
-  exact frame_eq_spec magic m hwf hg (by
+  exact frame_eq_spec magic m hwf (by
     have : Spec.Wire.maxSize < 2 ^ 32 := by decide
     omega)
 
@@ -384,11 +370,10 @@ def exVersion60002 : VersionMsg :=
     nStartingHeight := some (-1), fRelay := 1 }
 
 example : WFMsg (.version exVersion60002) := by decide
-example : ¬ serGate (.version exVersion60002) := by decide
-/-- candidate finding: at 60002 the prescribed payload has 85 bytes, the library writes 86 -/
+/-- D20: at 60002 the prescribed payload has 85 bytes (no relay byte), and that is what `msg_ser` writes -/
 example : (payload (.version exVersion60002)).length = 85 := by decide
-example : (msgSer (.version exVersion60002)).toOption.map List.length = some 86 := by
-  rw [version_lt_70001_payload exVersion60002 (by decide) (by decide) (by decide)]
+example : (msgSer (.version exVersion60002)).toOption.map List.length = some 85 := by
+  rw [payload_eq_spec _ (by decide)]
   decide
 /-- a version-105 message: four fields only, nothing else carried -/
 def exVersion105 : VersionMsg :=
